@@ -194,6 +194,10 @@ EntryErrs(n) ==
     ELSE LET ps == ParamsOf(n, n.entry)
          IN {Err("entrypoint argument for unknown parameter", {Loc("entrypoint", "", -1)}) :
                 a \in ArgNames(EntryArgs(n)) \ ParamNames(ps)}
+            \* there is no scope above the entry instance: a %(x)s in the value of one of its arguments (whichever source it
+            \* comes from, whatever x is) cannot be bound.  A value that the override replaces does not count.
+            \cup {Err("entry argument references a parameter", {Loc("entrypoint", "", -1)}) :
+                a \in {x \in DOMAIN EntryArgs(n) : ParRefs(EntryArgs(n)[x].v) # {}}}
             \cup {Err("entry parameter without value", {Loc(IF HasWf(n, n.entry) THEN "workflows" ELSE "components", n.entry, -1),
                                                          Loc("entrypoint", "", -1)}) :
                 p \in {x \in DOMAIN ps : ~ps[x].hasD /\ ps[x].n \notin ArgNames(EntryArgs(n))}}
@@ -446,18 +450,28 @@ CompTemplates(c) ==
 
 (* entry sources (c.es.on): main has g (default dg) and e (no default); the entrypoint gives g = E (eg) and/or e = EE (ee);   *)
 (* the override, when given (ov), names g = OG (og) and/or e = OE (oe) and/or an unknown parameter zz (oz)                    *)
-EsOff == [on |-> FALSE, eg |-> FALSE, ee |-> FALSE, ov |-> FALSE, og |-> FALSE, oe |-> FALSE, oz |-> FALSE]
-EsAll == {[on |-> TRUE, eg |-> eg, ee |-> ee, ov |-> ov, og |-> og, oe |-> oe, oz |-> oz] :
-             eg \in BOOLEAN, ee \in BOOLEAN, ov \in BOOLEAN, og \in BOOLEAN, oe \in BOOLEAN, oz \in BOOLEAN}
+(* rf: the VALUE of g contains a parameter reference -- in the entrypoint (e..) or in the override (o..), naming the        *)
+(* parameter gg of main (..Known) or nothing that exists (..Unknown).  Inside the workflows (depth > 1, binding mode fwd)    *)
+(* the same spelling %(g)s is the legal reference to a parameter of the parent.                                              *)
+EsOff == [on |-> FALSE, eg |-> FALSE, ee |-> FALSE, ov |-> FALSE, og |-> FALSE, oe |-> FALSE, oz |-> FALSE, rf |-> "none"]
+EsAll == {[on |-> TRUE, eg |-> eg, ee |-> ee, ov |-> ov, og |-> og, oe |-> oe, oz |-> oz, rf |-> rf] :
+             eg \in BOOLEAN, ee \in BOOLEAN, ov \in BOOLEAN, og \in BOOLEAN, oe \in BOOLEAN, oz \in BOOLEAN,
+             rf \in {"none", "eKnown", "eUnknown", "oKnown", "oUnknown"}}
+RfVal(rf, plain) == CASE rf \in {"eKnown", "oKnown"}     -> <<Lit("x"), Par("gg")>>
+                      [] rf \in {"eUnknown", "oUnknown"} -> <<Par("zz")>>
+                      [] OTHER -> <<Lit(plain)>>
 (* without an override nothing can be named by it; at most ONE fault per namespace (unknown name, or e without a value): the   *)
 (* compiler stops at the first fault it meets, which of two independent faults it reports is not part of the property     *)
-EsModes == {e \in EsAll : (e.ov \/ ~(e.og \/ e.oe \/ e.oz)) /\ ~(e.oz /\ ~(e.ee \/ e.oe))}
-EsValid(e) == ~e.on \/ ((e.ee \/ e.oe) /\ ~e.oz)
+EsModes == {e \in EsAll : /\ (e.ov \/ ~(e.og \/ e.oe \/ e.oz)) /\ ~(e.oz /\ ~(e.ee \/ e.oe))
+                          /\ (e.rf # "none" => ((e.ee \/ e.oe) /\ ~e.oz))
+                          /\ (e.rf \in {"eKnown", "eUnknown"} => e.eg) /\ (e.rf \in {"oKnown", "oUnknown"} => e.og)}
+(* a reference in the entrypoint's g is harmless when the override replaces g *)
+EsValid(e) == ~e.on \/ ((e.ee \/ e.oe) /\ ~e.oz /\ ~(e.rf \in {"oKnown", "oUnknown"}) /\ ~(e.rf \in {"eKnown", "eUnknown"} /\ ~e.og))
 Build(c) == [entry |-> IF c.mut = "unkEntry" THEN "nosuch" ELSE "main",
-             eargs |-> (IF c.es.on THEN Opt(c.es.eg, <<A("g", <<Lit("E")>>)>>) \o Opt(c.es.ee, <<A("e", <<Lit("EE")>>)>>) ELSE EArgs(c.bm))
+             eargs |-> (IF c.es.on THEN Opt(c.es.eg, <<A("g", RfVal(IF c.es.rf \in {"eKnown", "eUnknown"} THEN c.es.rf ELSE "none", "E"))>>) \o Opt(c.es.ee, <<A("e", <<Lit("EE")>>)>>) ELSE EArgs(c.bm))
                        \o Opt(c.mut = "entryUnkArg", <<A("zz", <<Lit("1")>>)>>),
              ovr   |-> [given |-> c.es.ov,
-                        args  |-> Opt(c.es.og, <<A("g", <<Lit("OG")>>)>>) \o Opt(c.es.oe, <<A("e", <<Lit("OE")>>)>>)
+                        args  |-> Opt(c.es.og, <<A("g", RfVal(IF c.es.rf \in {"oKnown", "oUnknown"} THEN c.es.rf ELSE "none", "OG"))>>) \o Opt(c.es.oe, <<A("e", <<Lit("OE")>>)>>)
                                   \o Opt(c.es.oz, <<A("zz", <<Lit("1")>>)>>)],
              wfs   |-> [k \in 1..c.d |-> BuildWf(c, k)],
              comps |-> CompTemplates(c)]
